@@ -228,12 +228,12 @@ AUDITS: list = []
 
 def contract(fn, name, call, vars=None, requires=(), ensures=(), raises=None, ensures_raise=(), instances=None,  # noqa: A002
              uses=(), loops=None, modular=None, note="", must_inline=(), replay=None, on_effect=None, covers=(),
-             assumes=(), tier="quick", max_paths=None, expected_paths=None, stubs=None, refs=None, bounded=None, json_model=None, scenario=None):
+             assumes=(), tier="quick", max_paths=None, expected_paths=None, stubs=None, refs=None, bounded=None, json_model=None, scenario=None, all_params=False):
     c = dict(fn=fn, name=name, call=call, vars=vars or {}, requires=list(requires), ensures=list(ensures),
              raises=raises, ensures_raise=list(ensures_raise), instances=instances or [{}], uses=list(uses),
              loops=loops or {}, modular=modular, note=note, must_inline=list(must_inline), replay=replay,
              on_effect=on_effect or {}, covers=list(covers), assumes=list(assumes), tier=tier, max_paths=max_paths,
-             stubs=stubs or {}, refs=refs or {}, bounded=bounded, json_model=json_model, scenario=scenario)
+             stubs=stubs or {}, refs=refs or {}, bounded=bounded, json_model=json_model, scenario=scenario, all_params=all_params)
     CONTRACTS.append(c)
     return c
 
